@@ -39,6 +39,7 @@ pub fn generate(prop: &str, thorough: bool, verif_seed: u64, idx: u64) -> Value 
     match prop {
         "C16" => serde_json::to_value(scen_list::generate_c16(rs, thorough)).unwrap(),
         "C15" => serde_json::to_value(scen_list::generate_c15(rs, thorough, idx % 8 == 7)).unwrap(),
+        "C11" => serde_json::to_value(crate::scen_life::generate(rs, thorough)).unwrap(),
         _ => panic!("unknown property {prop}"),
     }
 }
@@ -64,6 +65,20 @@ pub fn execute(warmed: &Warmed, desc: &Value, keep_trace: bool) -> RunResult {
                 r.nontrivial = nops >= 3;
                 r.distinct_key = rng::label(&serde_json::to_string(&d.threads).unwrap_or_default()) ^ (d.elem as u64);
             }
+            r
+        }
+        ("C11", _) => {
+            let d: crate::scen_life::LifeDesc = match serde_json::from_value(desc.clone()) {
+                Ok(d) => d,
+                Err(e) => {
+                    let mut r = RunResult::default();
+                    r.violations.push(("harness-error".into(), format!("bad run description: {e}")));
+                    return r;
+                }
+            };
+            let mut r = crate::scen_life::execute(&d, keep_trace);
+            r.nontrivial = r.preemptions > 0;
+            r.distinct_key = r.trace_hash;
             r
         }
         _ => {
@@ -127,6 +142,13 @@ pub fn run_descs(shm: &Shm, warmed: &Warmed, descs: &[Value], per_child: usize, 
         }
         if pid == 0 {
             // ---- child
+            // SAFETY: silence the child's stderr (abort messages of runs that are expected to die)
+            unsafe {
+                let n = libc::open(c"/dev/null".as_ptr(), libc::O_WRONLY);
+                if n >= 0 && std::env::var_os("VERIF_CHILD_STDERR").is_none() {
+                    libc::dup2(n, 2);
+                }
+            }
             shm.attach_child();
             let _ = CHILD_SHM.set(Shm { base: shm.base, len: shm.len });
             sched::set_fatal(child_fatal);
